@@ -1251,6 +1251,14 @@ impl Interp {
         let unwatch = Unwatch(prev, mine.clone());
         let cleanable = cleaner.register(action);
         drop(unwatch);
+        // `register(&self)` borrows the Cleaner, hence its owner, for the whole call: safe Rust cannot destroy the owner
+        // meanwhile. The harness reaches the owner through a raw pointer, so a callback of the collection that
+        // `register` starts can release the last `Cc` to it; the crate then stores the new map in a Cleaner that no
+        // longer exists. From here on the run is outside what safe code can do: leaks are no longer judged
+        // (memory-safety oracles stay on).
+        if self.node_ok(node as *const Node).is_err() {
+            self.leaky.set(true);
+        }
         // `register` returned: the map exists, the action is stored, its side record exists
         let snap = cleaner.verif_map_snapshot().expect("cleaner map must exist after register");
         if !had_map && self.id_of_box(snap.box_addr).is_some() {
